@@ -55,16 +55,24 @@ func (r *Router) route(s Sender, p stanza.Packet) {
 	}
 	iq, isIq := p.(*stanza.IQ)
 	if isIq {
-		r.IQResultRouteLock.RLock()
+		// Look the pending request up and remove it in a single critical section: however many
+		// copies of a response arrive, and on however many goroutines, only one of them gets the route.
+		r.IQResultRouteLock.Lock()
 		route, ok := r.IQResultRoutes[iq.Id]
-		r.IQResultRouteLock.RUnlock()
 		if ok {
-			r.IQResultRouteLock.Lock()
 			delete(r.IQResultRoutes, iq.Id)
-			r.IQResultRouteLock.Unlock()
-			route.result <- *iq
+		}
+		r.IQResultRouteLock.Unlock()
+		if ok {
+			if route.context.Err() == nil {
+				// The channel has room for the one value it will ever carry: this never blocks,
+				// even if the caller of SendIQ has stopped listening.
+				route.result <- *iq
+				close(route.result)
+				return
+			}
+			// The request was cancelled: route the response like any other packet.
 			close(route.result)
-			return
 		}
 	}
 
@@ -151,12 +159,20 @@ func (r *Router) NewIQResultRoute(ctx context.Context, id string) chan stanza.IQ
 	// is done.
 	go func() {
 		<-route.context.Done()
-		r.IQResultRouteLock.Lock()
-		delete(r.IQResultRoutes, id)
-		r.IQResultRouteLock.Unlock()
+		r.removeIQResultRoute(id, route.result)
 	}()
 
 	return route.result
+}
+
+// removeIQResultRoute unregisters the pending request, unless the id has meanwhile been taken by a
+// response or registered again by a newer request.
+func (r *Router) removeIQResultRoute(id string, result chan stanza.IQ) {
+	r.IQResultRouteLock.Lock()
+	if route, ok := r.IQResultRoutes[id]; ok && route.result == result {
+		delete(r.IQResultRoutes, id)
+	}
+	r.IQResultRouteLock.Unlock()
 }
 
 func (r *Router) Match(p stanza.Packet, match *RouteMatch) bool {
@@ -195,7 +211,8 @@ type IQResultRoute struct {
 func NewIQResultRoute(ctx context.Context) *IQResultRoute {
 	return &IQResultRoute{
 		context: ctx,
-		result:  make(chan stanza.IQ),
+		// One slot: the single response is delivered without waiting for the receiver.
+		result: make(chan stanza.IQ, 1),
 	}
 }
 
